@@ -68,6 +68,8 @@ func (e *Embed) GenerateOutput(textOnly bool) string {
 	// TODO: Maybe just to be save we should sanitize it.
 	tagName := dom.TagName(e.Element)
 	if tagName == "blockquote" || tagName == "iframe" {
+		// Scripts and styles nested inside the embedded element are never part of the output.
+		dom.RemoveNodes(dom.QuerySelectorAll(e.Element, "script,style"), nil)
 		domutil.StripAttributes(e.Element)
 		dom.AppendChild(embed, e.Element)
 	}
